@@ -180,9 +180,14 @@ var permutePrograms = [][]string{
 	// per-subroutine state: the same goto label in several subroutines (one of them functional), an unused goto, a goto without destination
 	{"sub a {\n  goto done;\n  esi;\n  done:\n}", "sub pick STRING {\n  goto done;\n  return \"a\";\n  done:\n  return \"b\";\n}", "sub c {\n  goto nowhere;\n}", "sub vcl_recv {\n  #FASTLY recv\n  goto done;\n  call a;\n  call c;\n  set req.http.P = pick();\n  done:\n}"},
 	{"sub a {\n  declare local var.x STRING;\n  set var.x = \"1\";\n}", "sub fb STRING {\n  declare local var.x STRING;\n  return var.x;\n}", "sub c {\n  declare local var.unused INTEGER;\n  l1:\n}", "sub vcl_recv {\n  #FASTLY recv\n  declare local var.x INTEGER;\n  call a;\n  call c;\n  set req.http.P = fb();\n}"},
-	// includes inside subroutine bodies (include resolution restores the context)
+	// include statements inside several subroutine bodies (include resolution saves and restores the context)
+	{"sub a {\n  include \"pm1\";\n  return(lookup);\n}", "sub b {\n  include \"pm2\";\n  return(pass);\n}", "sub c {\n  set req.http.C = \"1\";\n  return(lookup);\n}", "sub vcl_recv {\n  #FASTLY recv\n  call a;\n  call b;\n  call c;\n  return(lookup);\n}"},
+	{"sub vcl_recv {\n  #FASTLY recv\n  include \"pm1\";\n  return(lookup);\n}", "sub vcl_deliver {\n  #FASTLY deliver\n  include \"pm2\";\n  return(deliver);\n}", "sub vcl_fetch {\n  #FASTLY fetch\n  return(deliver);\n}", "sub helper {\n  include \"pm1\";\n}"},
 	{"sub a {\n  set req.http.A = \"1\";\n  return(lookup);\n}", "sub b {\n  set req.http.B = undefined.b;\n}", "sub fc BOOL {\n  return true;\n}", "sub vcl_recv {\n  #FASTLY recv\n  call a;\n  call b;\n  if (fc()) { esi; }\n  return(lookup);\n}"},
 }
+
+// modules the permuted programs may include from inside subroutine bodies
+var permuteModules = map[string]string{"pm1": "set req.http.M1 = \"1\";\n", "pm2": "set req.http.M2 = \"2\";\nesi;\n"}
 
 // arity programs: user-defined functional subroutines with 0..2 parameters called with 0..3 arguments, in an expression,
 // in a condition and nested in another call; plain subroutines called with arguments
@@ -463,8 +468,8 @@ func runPermute(c Case) engine.Result {
 	for i := range id {
 		id[i] = i
 	}
-	base := lintx.Lint(build(id), nil)
-	perm := lintx.Lint(build(c.Perm), nil)
+	base := lintx.Lint(build(id), permuteModules)
+	perm := lintx.Lint(build(c.Perm), permuteModules)
 	if perm.PanicSite != "" && base.PanicSite == "" {
 		return engine.Result{NonTrivial: true, Outcome: "panic", Findings: []engine.Finding{{Class: "panic@" + perm.PanicSite + "|permute", What: "linter panics for a permuted declaration order: " + perm.PanicMsg, Detail: build(c.Perm)}}}
 	}
